@@ -19,6 +19,8 @@ pub struct Cfg {
     pub pos: Vec<String>,
     pub skip: Vec<String>,
     pub sort: char,
+    /// `X,<path>`: run this executable (a real crate using the attribute macros) instead of the synthetic registry.
+    pub exe: Option<String>,
 }
 
 #[derive(Clone, Debug)]
@@ -147,6 +149,7 @@ fn meta(f: &[&str]) -> Meta {
 
 pub fn parse(line: &str) -> Spec {
     let mut cfg = None;
+    let mut exe = None;
     let mut items = Vec::new();
     for item in line.split(' ') {
         if item.is_empty() {
@@ -162,6 +165,7 @@ pub fn parse(line: &str) -> Spec {
                     pos: list(f[4]),
                     skip: list(f[5]),
                     sort: f[6].chars().next().unwrap(),
+                    exe: None,
                 })
             }
             "B" => items.push(Item::B(Bench { meta: meta(&f), args: args(f[8], f[9]) })),
@@ -201,8 +205,13 @@ pub fn parse(line: &str) -> Spec {
                 };
                 items.push(Item::G(Group { meta: meta(&f), args: args(f[8], f[9]), generic }))
             }
+            "X" => exe = Some(dec(f[1])),
+            // the abstract program is for the model only
+            "P" | "F" | "M" | "N" | "E" => {}
             other => panic!("bad item {other}"),
         }
     }
-    Spec { cfg: cfg.expect("cfg item"), items }
+    let mut cfg = cfg.expect("cfg item");
+    cfg.exe = exe;
+    Spec { cfg, items }
 }
